@@ -375,6 +375,103 @@ Proof. vm_compute. repeat split. Qed.
 (* ------------------------------------------------------------------------------------------------ *)
 (* B703                                                                                               *)
 
+(* Fuel: the verdict of [xss_eval] does not depend on the amount of fuel once there is enough of it, i.e.
+   the only effect of the bound is to turn a too deep (in particular a non-terminating) recursion into
+   [Raise OtherError] (Python: RecursionError). *)
+Definition rec_le (r1 r2 : xtask -> res bool) : Prop :=
+  forall t r, r1 t = r -> r <> Raise OtherError -> r2 t = r.
+
+Lemma bind_mono {A B} (a a' : res A) (k k' : A -> res B) r :
+  (forall r0, a = r0 -> (forall e, r0 = Raise e -> e <> OtherError) -> a' = r0) ->
+  (forall x r1, k x = r1 -> r1 <> Raise OtherError -> k' x = r1) ->
+  bind a k = r -> r <> Raise OtherError -> bind a' k' = r.
+Proof.
+  intros Ha Hk Hb Hr. destruct a as [x|e].
+  - rewrite (Ha (Ok x) eq_refl) by (intros e H; discriminate). simpl in *. apply Hk; assumption.
+  - simpl in Hb. subst r. rewrite (Ha (Raise e) eq_refl).
+    + reflexivity.
+    + intros e' H. inversion H; subst. intros ->. apply Hr. reflexivity.
+Qed.
+
+Lemma rec_le_bind {B} r1 r2 t (k k' : bool -> res B) r :
+  rec_le r1 r2 ->
+  (forall x r1, k x = r1 -> r1 <> Raise OtherError -> k' x = r1) ->
+  bind (r1 t) k = r -> r <> Raise OtherError -> bind (r2 t) k' = r.
+Proof.
+  intros Hle Hk. apply bind_mono; [|exact Hk].
+  intros r0 H0 Hne. apply Hle; [exact H0|]. intros ->. apply (Hne OtherError); reflexivity.
+Qed.
+
+Lemma xss_all_mono r1 r2 ln l r :
+  rec_le r1 r2 -> xss_all r1 ln l = r -> r <> Raise OtherError -> xss_all r2 ln l = r.
+Proof.
+  intros Hle. revert r. induction l as [|x l IH]; intros r H Hr; simpl in *; [exact H|].
+  destruct (is_Str x); [apply IH; assumption|].
+  destruct (is_cls "Name" x); [|exact H].
+  revert H Hr. apply rec_le_bind; [exact Hle|].
+  intros [|] r1' H1 H2; [apply IH; assumption|exact H1].
+Qed.
+
+Lemma xss_loop_mono r1 r2 id until body secure r :
+  rec_le r1 r2 -> xss_loop r1 id until body secure = r -> r <> Raise OtherError ->
+  xss_loop r2 id until body secure = r.
+Proof.
+  intros Hle. revert secure r. induction body as [|st rest IH]; intros secure r H Hr; simpl in *; [exact H|].
+  destruct (Z.geb (node_line st) until); [exact H|].
+  destruct (is_assigned id st) as [to|e]; simpl in *; [|exact H].
+  destruct to as [|v|l].
+  - apply IH; assumption.
+  - destruct (is_Str v); [apply IH; assumption|].
+    destruct (is_cls "Name" v).
+    + revert H Hr. apply rec_le_bind; [exact Hle|]. intros x r' H1 H2. apply IH; assumption.
+    + destruct (is_cls "Call" v); [|exact H].
+      revert H Hr. apply rec_le_bind; [exact Hle|]. intros x r' H1 H2. apply IH; assumption.
+  - destruct l as [|y l']; [apply IH; assumption|].
+    revert H Hr. apply bind_mono.
+    + intros r0 H0 Hne. apply (xss_all_mono r1 r2); [exact Hle|exact H0|].
+      intros ->. apply (Hne OtherError); reflexivity.
+    + intros [|] r' H1 H2; [apply IH; assumption|exact H1].
+Qed.
+
+Lemma xss_args_mono r1 r2 ln q pending r :
+  rec_le r1 r2 -> xss_args r1 ln q pending = r -> r <> Raise OtherError -> xss_args r2 ln q pending = r.
+Proof.
+  intros Hle. revert pending r. induction q as [|a q IH]; intros pending r H Hr; simpl in *.
+  - destruct pending; [exact H|]. apply Hle; assumption.
+  - destruct (is_Str a); [apply IH; assumption|].
+    destruct (is_cls "Name" a).
+    { revert H Hr. apply rec_le_bind; [exact Hle|].
+      intros [|] r' H1 H2; [apply IH; assumption|exact H1]. }
+    destruct (is_cls "Call" a).
+    { revert H Hr. apply rec_le_bind; [exact Hle|].
+      intros [|] r' H1 H2; [apply IH; assumption|exact H1]. }
+    destruct (is_starred_display a); [apply IH; assumption|exact H].
+Qed.
+
+Lemma xss_step_mono r1 r2 parent : rec_le r1 r2 -> rec_le (xss_step r1 parent) (xss_step r2 parent).
+Proof.
+  intros Hle t r H Hr. destruct t as [id until|call|ln queue]; simpl in *.
+  - destruct (is_param parent id); [exact H|]. apply (xss_loop_mono r1 r2); assumption.
+  - destruct (is_format_call call); [|exact H]. apply Hle; assumption.
+  - apply (xss_args_mono r1 r2); assumption.
+Qed.
+
+Lemma xss_eval_S fuel parent : rec_le (xss_eval fuel parent) (xss_eval (S fuel) parent).
+Proof.
+  induction fuel as [|f IH].
+  - intros t r H Hr. simpl in H. congruence.
+  - change (xss_eval (S (S f)) parent) with (xss_step (xss_eval (S f) parent) parent).
+    change (xss_eval (S f) parent) with (xss_step (xss_eval f parent) parent) at 1.
+    apply xss_step_mono. exact IH.
+Qed.
+
+Theorem xss_eval_fuel_stable (f f' : nat) (parent : node) (t : xtask) (r : res bool) :
+  xss_eval f parent t = r -> r <> Raise OtherError -> f <= f' -> xss_eval f' parent t = r.
+Proof.
+  intros H Hr Hle. induction Hle as [|m Hle IH]; [exact H|].
+  apply (xss_eval_S m parent); assumption.
+Qed.
+
 (* A mark_safe(...)-family call whose first positional argument is a string literal yields no finding
    (and does not raise), whatever surrounds it.  This statement does not depend on the fuel of
    [xss_eval]; it is labelled partial because it covers only this corner of B703's decision procedure. *)
